@@ -196,8 +196,9 @@ func parseWALPage(data []byte, baseOffset uint64, pageNum int, following []byte)
 		pos = align8(pos)
 	}
 
-	// Parse records
-	for pos+XLogRecordSize <= len(data) {
+	// Parse records.  Records start on 8-byte boundaries, so xl_tot_len is always on the page where the record
+	// starts; the rest of the 24-byte header may already be on the next page.
+	for pos+8 <= len(data) {
 		// Check for padding (zeros)
 		if isZeroPadding(data[pos:]) {
 			break
